@@ -119,7 +119,10 @@ def _merge(state, upd):
 def run_unit(unit):
   res = core.new_result()
   for cls, dl in unit['progs']:
-    _run_prog(res, cls, dsl.fromlist(dl))
+    d = dsl.fromlist(dl)
+    _run_prog(res, cls, d)
+    if cls == 'A' and _core_ok(d):
+      _run_core(res, d)
   return res
 
 
@@ -336,6 +339,27 @@ def _run_prog(res, cls, d):
       V('capture-changes-output', 'capture_intermediates changed the primary output',
         hist='init>apply[capture]')
     vin2 = {k: v for k, v in vin.items() if k != 'perturbations'}
+    # perturb creating its (zero) variable on the fly must not change the output either,
+    # whatever the dtype flowing through it
+    if dsl.has(d, lambda st: st[0] == 'perturb'):
+      for dt in (jnp.float32, jnp.bfloat16, jnp.float16):
+        xd = x.astype(dt)
+        res['evals'] += 2
+        try:
+          pv = {k: (jax.tree.map(lambda a: a.astype(dt), v) if k == 'params' else v)
+                for k, v in vin2.items()}
+          ob = m.apply(pv, xd, rngs={'dropout': rngs['dropout']})
+          op, _ = m.apply(pv, xd, rngs={'dropout': rngs['dropout']}, mutable=['perturbations'])
+          if canon_tree(ob, True) != canon_tree(op, True):
+            V('perturb-changes-output',
+              f'perturb with a mutable (still empty) perturbation collection changed the primary '
+              f'output for {jnp.dtype(dt).name} data (dtype or bits)',
+              hist=f'init>apply[perturbations,{jnp.dtype(dt).name}]',
+              observed=str(jax.tree.map(lambda a: a.dtype, op)),
+              expected=str(jax.tree.map(lambda a: a.dtype, ob)))
+        except Exception as e:  # noqa
+          V('perturb-raises', f'{type(e).__name__}: {e}'[:200],
+            hist=f'init>apply[perturbations,{jnp.dtype(dt).name}]')
     try:
       o2 = m.apply(vin2, x, rngs={'dropout': rngs['dropout']})
       if canon_tree(o2, True) != canon_tree(base, True):
@@ -345,6 +369,122 @@ def _run_prog(res, cls, d):
     except Exception as e:  # noqa
       V('perturb-raises', f'apply without perturbations raised {type(e).__name__}: {e}',
         hist='init>apply[no-perturbations]')
+
+
+def _core_fn(d):
+  """The DSL definition as a plain function of a core Scope (functional core API)."""
+  import jax
+  import jax.numpy as jnp
+
+  def fn(scope, x):
+    ks = ()
+    for i, st in enumerate(d):
+      op = st[0]
+      if op == 'param':
+        shape = {'s': (), 'v': (x.shape[-1],)}[st[2]]
+        x = x * scope.param(st[1], dsl.pinit(False), shape)
+      elif op == 'var':
+        _, col, n, kind = st
+        v = scope.variable(col, n, dsl.vzero)
+        if kind == 'count' and scope.is_mutable_collection(col):
+          v.value = v.value + 1.0
+        elif kind == 'acc' and scope.is_mutable_collection(col):
+          v.value = v.value + x.sum()
+        elif kind == 'force':
+          v.value = v.value + 1.0
+        x = x + v.value
+      elif op == 'rng':
+        k = scope.make_rng(st[1])
+        ks = ks + (jax.random.key_data(k),)
+        x = x + dsl.rng_bump(k)
+      elif op == 'child':
+        for _ in range(st[4]):
+          o = scope.child(_core_fn(st[2]), st[3] or f'auto{i}')(x)
+          x = o['x']
+          ks = ks + tuple(o['k'])
+      else:
+        raise AssertionError(op)
+    return {'x': x, 'k': ks}
+  return fn
+
+
+def _core_ok(d):
+  return not dsl.has(d, lambda st: st[0] in ('sow', 'perturb', 'leak'))
+
+
+def _run_core(res, d):
+  """flax.core.init / apply on the equivalent scope function: same contract."""
+  import jax
+  import jax.numpy as jnp
+  from flax import core as fcore
+  x = jnp.asarray(_POOL[len(repr(d)) % len(_POOL)])
+  pkey = f'core:{d!r}'
+  case = dict(layer='flax.core', d=dsl.tolist(d))
+  fn = _core_fn(d)
+  rngs = {'params': jax.random.key(1), 'dropout': jax.random.key(2)}
+  res['evals'] += 2
+  try:
+    out0, v0 = fcore.init(fn)(rngs, x)
+    out0b, v0b = fcore.init(fn)(rngs, x)
+  except Exception as e:  # noqa
+    core.violation(res, f'core-init-raises|{pkey}', f'{type(e).__name__}: {e}'[:300], case)
+    return
+  if canon_tree((out0, v0), True) != canon_tree((out0b, v0b), True):
+    core.violation(res, f'core-init-nondet|{pkey}', 'core.init is not deterministic', case)
+  state = np_tree(v0)
+  res['states'] += 1
+  for f in FILTERS:
+    for kind in ('dict', 'frozen'):
+      vin = jax.tree.map(jnp.asarray, state)
+      if kind == 'frozen':
+        from flax.core import freeze
+        vin = freeze(vin)
+      vsnap = canon_tree(vin, True)
+      vids = container_ids(vin)
+      res['evals'] += 2
+      res['transitions'] += 1
+      hs = f'init>apply[{f!r},{kind}]'
+      err = None
+      try:
+        r1 = fcore.apply(fn, mutable=dsl.to_flax_filter(f))(vin, x, rngs={'dropout': rngs['dropout']})
+      except Exception as e:  # noqa
+        err = e
+      if canon_tree(vin, True) != vsnap:
+        core.violation(res, f'core-vars-changed|{pkey}|{hs}',
+                       'core.apply modified the variables passed in', case)
+      forced = dsl.has(d, lambda st: st[0] == 'var' and st[3] == 'force'
+                       and not dsl.in_filter_ref(f, st[1]))
+      if err is not None:
+        if not forced:
+          core.violation(res, f'core-apply-raises|{pkey}|{hs}',
+                         f'core.apply raised {_err_kind(err)}', case)
+        elif _err_kind(err) != 'modify':
+          core.violation(res, f'core-apply-error-kind|{pkey}|{hs}',
+                         f'expected ModifyScopeVariableError, got {_err_kind(err)}', case)
+        continue
+      if forced:
+        core.violation(res, f'core-should-raise|{pkey}|{hs}',
+                       'a write to a collection outside `mutable` took effect in core.apply', case)
+        continue
+      out, upd = (r1, None) if f is False else r1
+      r2 = fcore.apply(fn, mutable=dsl.to_flax_filter(f))(vin, x, rngs={'dropout': rngs['dropout']})
+      if canon_tree(r1, True) != canon_tree(r2, True):
+        core.violation(res, f'core-apply-nondet|{pkey}|{hs}', 'core.apply is not deterministic',
+                       case)
+      if upd is not None:
+        exp_cols = sorted(c for c in state if dsl.in_filter_ref(f, c))
+        if sorted(upd.keys()) != exp_cols:
+          core.violation(res, f'core-updates|{pkey}|{hs}',
+                         f'core.apply returned collections {sorted(upd.keys())}, expected every '
+                         f'existing collection matching mutable: {exp_cols}', case)
+        if container_ids(upd) & vids:
+          core.violation(res, f'core-alias|{pkey}|{hs}',
+                         'core.apply returned a container of the input', case)
+        for c in state:
+          if not dsl.in_filter_ref(f, c) and c in upd:
+            core.violation(res, f'core-immutable-returned|{pkey}|{hs}', c, case)
+      core.outcome(res, 'core:ok')
+  res['nontrivial'].append(core.h(pkey))
 
 
 def _scribble(t):
